@@ -22,11 +22,15 @@ Example guard_e1 : cguard e1 = true /\ nguard cfd e1 = true /\ is_ok (ctree cfd 
 Proof. vm_compute. repeat split; reflexivity. Qed.
 Example guard_e2 : cguard e2 = true /\ nguard cfd e2 = true /\ is_ok (ctree cfd e2) = true.
 Proof. vm_compute. repeat split; reflexivity. Qed.
+(* a relational whose operand is a relational: parenthesised by the printer *)
+Definition e3 : expr := EF2 TC_StrictLessThan (EF2 TC_Equality x y) z.
+Example guard_e3 : cguard e3 = true /\ is_ok (ctree cfd e3) = true.
+Proof. vm_compute. split; reflexivity. Qed.
 (* the text of e1 *)
 Example text_e1 : match ctree cfd e1 with Ok t => wp t && match ccode_reads_back t with Some true => true | _ => false end | _ => false end = true.
 Proof. vm_compute. reflexivity. Qed.
 (* the guards are not trivially true: they reject the regrouping / integer-division inputs *)
 Example guard_rejects :
-  cguard (EF2 TC_StrictLessThan (EF2 TC_Equality x y) z) = false /\
+  cguard (EAdd (NInt 0) [(EF1 TC_UnevaluatedExpr (EAdd (NInt 0) [(x, NInt 1); (y, NInt 1)]), NInt 2)]) = false /\
   nguard cfd (EMul (NInt 3) [(EPw [(ENum (NInt 1), EF2 TC_StrictLessThan x (ENum (NInt 0))); (ENum (NInt 2), EBool true)], ENum (NInt (-1)))]) = false.
 Proof. vm_compute. split; reflexivity. Qed.
